@@ -92,7 +92,7 @@ class CloudStorage(QueueStorage):
     def set_recipients_delivered(self, id, rcpt_indexes):
         meta = self.obj_store.get_message_meta(id)
         current = meta.get('delivered_indexes', [])
-        new = current + rcpt_indexes
+        new = current + list(rcpt_indexes)
         self.obj_store.set_message_meta(id, delivered_indexes=new)
         log.update_meta(id, delivered_indexes=rcpt_indexes)
 
